@@ -370,6 +370,23 @@ int process_start(pid_t *process,
     int redirect[] = { options.handle.in, options.handle.out,
                        options.handle.err };
 
+    // A redirect source in the 0-2 range that is not the stream's own number
+    // (e.g. stderr redirected to the parent's stdout handle) would be
+    // overwritten by an earlier `dup2` call below so we copy it out of the way
+    // first.
+    for (int i = 0; i < (int) ARRAY_SIZE(redirect); i++) {
+      if (redirect[i] >= 0 && redirect[i] <= STDERR_FILENO &&
+          redirect[i] != i) {
+        r = fcntl(redirect[i], F_DUPFD_CLOEXEC, STDERR_FILENO + 1);
+        if (r < 0) {
+          r = -errno;
+          goto child;
+        }
+
+        redirect[i] = r;
+      }
+    }
+
     for (int i = 0; i < (int) ARRAY_SIZE(redirect); i++) {
       // `i` corresponds to the standard stream we need to redirect.
       r = dup2(redirect[i], i);
